@@ -85,7 +85,7 @@ import (
 func init() {
 	stub := []string{"router (stub: every GetClosestPeers parks)", "pb.MessageSender (level A: every ADD_PROVIDER parks)", "datastores (simds: operations park)", "host (simhost)", "crypto/rand (constant per run)"}
 	faults := append([]string{"fault_rpc_error", "fault_gcp_error", "probe_close_provide_inflight", "probe_close_gcp_parked", "probe_close_offline", "probe_close_online", "probe_cfg_own_keystore", "probe_cfg_no_schedule", "probe_cfg_no_host",
-		"probe_cfg_slow_keystore", "probe_close_op_in_keystore", "probe_cfg_no_self_addrs", "probe_batch_asked_for_addrs"}, c14CommonFaults...)
+		"probe_cfg_slow_keystore", "probe_close_op_in_keystore", "probe_cfg_no_self_addrs", "probe_batch_asked_for_addrs", "probe_caller_keystore_closed"}, c14CommonFaults...)
 	sim.Register(&sim.Scenario{Prop: "C14", Name: "sweeping-provider", Weight: 3, Run: func(s *sim.Sim) { runC14Provider(s, false, false, false) },
 		Real:   []string{"provider.New / SweepingProvider.Close (done channel, wait-group guard lock, worker pool closed before waiting, cleanup functions)", "connectivity checker", "provide/reprovide loops, batch and individual provides in flight", "keystore (default or caller-supplied)"},
 		Stub:   stub,
@@ -99,7 +99,7 @@ func init() {
 	sim.Register(&sim.Scenario{Prop: "C14", Name: "dual-provider", Weight: 2, Run: runC14DualProvider,
 		Real:   []string{"provider/dual.New / SweepingProvider.Close (both providers in parallel, then owned keystore and datastore)", "two provider.SweepingProvider on a real dual.DHT (router = IpfsDHT.GetClosestPeers, local record = IpfsDHT.Provide)"},
 		Stub:   []string{"host (simhost)", "pb.MessageSenders (level A, WAN/LAN)", "remote peers (honest scripted answers)", "datastores (simds)", "crypto/rand (constant per run)"},
-		Faults: append([]string{"fault_rpc_error", "probe_close_provide_inflight", "probe_close_online", "probe_close_offline", "probe_cfg_own_keystore"}, c14CommonFaults...),
+		Faults: append([]string{"fault_rpc_error", "probe_close_provide_inflight", "probe_close_online", "probe_close_offline", "probe_cfg_own_keystore", "probe_caller_keystore_closed"}, c14CommonFaults...),
 	})
 }
 
@@ -373,6 +373,14 @@ func runC14Provider(s *sim.Sim, buffer, tight, reset bool) {
 		ownKS, err = keystore.NewKeystore(mk("ksds"), keystore.WithBatchSize(2))
 		if err != nil {
 			panic(err)
+		}
+	}
+	if ownKS != nil {
+		// the datastore under the caller's keystore is only ever used by that
+		// keystore's own worker
+		f.callers = func(p *sim.Parked) bool {
+			op, _ := p.Data.(*simds.Op)
+			return p.Kind == "ds" && op != nil && op.DS != nil && op.DS.Name == "ksds"
 		}
 	}
 	f.baseline()
@@ -698,11 +706,36 @@ func runC14Provider(s *sim.Sim, buffer, tight, reset bool) {
 			// the caller owns a keystore it supplied
 			var ops opSet
 			op := ops.Go(s, "close-own-keystore", func() (any, error) { return nil, ownKS.Close() })
-			f.drain(func() bool { return op.Done })
+			c14JudgeCallerKeystoreClose(s, f, op)
 		}
 		_ = h.Close()
 	})
 	s.Finish()
+}
+
+// c14JudgeCallerKeystoreClose: the caller closes the keystore it supplied,
+// after the provider that used it was closed. The provider's goroutines were
+// callers of that keystore, and the context they called it with ended with the
+// provider's Close - possibly while the keystore was executing the call on a
+// slow disk (sweeping-provider-reset). Clause: "Close on every component (...
+// keystores) returns ..., and is safe while operations are in flight: those
+// operations finish or fail without panic or deadlock" - rules close-hang and
+// close-panic of c14.go, applied to the keystore's Close: everything parked is
+// released, nothing is parked and B later it has not returned.
+func c14JudgeCallerKeystoreClose(s *sim.Sim, f *c14Flow, op *Op) {
+	s.Count("probe_caller_keystore_closed")
+	if s.Failed() || f.closeOp == nil || !f.closeOp.Done {
+		// a violation was reported already (e.g. the provider's own Close hangs)
+		f.drain(func() bool { return op.Done })
+		return
+	}
+	if !f.drain(func() bool { return op.Done }) {
+		s.Violate("close-hang", "%s: the caller's keystore - used by the provider until its Close - did not return from its own Close although every parked call was released and %v of virtual time passed with nothing parked", f.name, c14B)
+		return
+	}
+	if op.Panic != "" {
+		s.Violate("close-panic", "%s: Close of the caller's keystore panicked: %s", f.name, firstLine(op.Panic))
+	}
 }
 
 func runC14DualProvider(s *sim.Sim) {
@@ -874,7 +907,7 @@ func runC14DualProvider(s *sim.Sim) {
 		if ownKS != nil {
 			var ops opSet
 			op := ops.Go(s, "close-own-keystore", func() (any, error) { return nil, ownKS.Close() })
-			f.drain(func() bool { return op.Done })
+			c14JudgeCallerKeystoreClose(s, f, op)
 		}
 		_ = h.Close()
 	})
